@@ -148,6 +148,26 @@ async fn scenario(name: &str) -> Result<String, String> {
             within(&mut st).await.map_err(|e| format!("Server future: {e}"))?.ok();
             Ok(format!("after_release_ms={}", t0.elapsed().as_millis()))
         }
+        // the Server future itself is dropped (its task aborted) in the middle of a graceful stop: the workers go on with their
+        // graceful shutdown, the connection in progress is not killed
+        "server_dropped_mid_graceful" => {
+            let (srv, addr) = build(1, 30, false);
+            let h = srv.handle();
+            let st = actix_rt::spawn(srv);
+            let mut c1 = held_conn(addr).await?;
+            drop(h.stop(true));
+            tokio::time::sleep(Duration::from_millis(500)).await;
+            st.abort();
+            let mut b = [0u8; 8];
+            match tokio::time::timeout(Duration::from_millis(1500), c1.read(&mut b)).await {
+                Ok(Ok(0)) | Ok(Err(_)) => {
+                    return Err("the connection in progress was closed when the Server future was dropped during a graceful stop".into())
+                }
+                _ => {}
+            }
+            drop(c1);
+            Ok(String::new())
+        }
         // shutdown_timeout reached with the connection still held
         "graceful_timeout" => {
             let (srv, addr) = build(1, 1, false);
